@@ -130,4 +130,42 @@ vpv_cell!(#[kani::stub(std::time::Instant::elapsed, stub_elapsed)] #[kani::stub(
     ok
 });
 
-vpv_replay_table!(c45_opens_after_exactly_threshold, c45_new, c45_allow_request, c45_record_success, c45_record_failure, c45_single_probe);
+
+// ---- dead-letter queue: BOUNDED STAND-IN (native enumeration; file I/O + serde are outside both verifiers).  "Every event handed to a protected sink is
+// either delivered or written to its dead-letter queue as a readable entry naming the sink and the error": for sink names and error texts containing
+// quotes, backslashes, newlines and non-ASCII characters, written singly and in batches of 0..=3 events, every line of the queue file is a JSON object whose
+// `connector` and `error` are exactly the strings given and whose `event` carries the event type; one line per event; the counter agrees.
+vpv_native!(c45_dlq_entries_readable, "C45/DeadLetterQueue::write + write_batch/one readable JSON line per event naming the sink and the error exactly (native enumeration: 6 sink names x 7 error texts x single write and batches of 0..=3)", {
+    let texts = ["plain", "", "say \"hi\"", "back\\slash", "two\nlines", "tab\tand \u{e9}\u{4e16}", "{\"json\": [1, 2]}"];
+    let mut ok = true; let mut shown = 0;
+    let dir = std::env::temp_dir().join(format!("vpv-c45-dlq-{}", std::process::id()));
+    let _ = std::fs::create_dir_all(&dir);
+    for (ci, conn) in texts.iter().take(6).enumerate() { for (ei, err) in texts.iter().enumerate() { for batch in 0..=4usize {
+        let good = vpv_enum_try(|| format!("sink name {:?}, error text {:?}, {}", conn, err, if batch == 4 { String::from("single write") } else { format!("batch of {}", batch) }), || {
+            let path = dir.join(format!("q-{}-{}-{}.jsonl", ci, ei, batch));
+            let _ = std::fs::remove_file(&path);
+            let dlq = match crate::dead_letter::DeadLetterQueue::open(&path) { Ok(d) => d, Err(_) => return false };
+            let mk = |k: usize| crate::event::Event::new("Ev\u{e9}nt").with_field("n", k as i64).with_field("text", *err);
+            let expected = if batch == 4 { dlq.write(conn, err, &mk(0)); 1 } else {
+                let evs: Vec<std::sync::Arc<crate::event::Event>> = (0..batch).map(|k| std::sync::Arc::new(mk(k))).collect();
+                dlq.write_batch(conn, err, &evs); batch };
+            let content = std::fs::read_to_string(&path).unwrap_or_default();
+            let _ = std::fs::remove_file(&path);
+            let lines: Vec<&str> = content.lines().collect();
+            if dlq.count() as usize != expected { println!("  counter {} but {} events handed over", dlq.count(), expected); return false; }
+            let mut parsed = 0usize;
+            // an entry may itself contain an escaped newline but never a raw one: every physical line must be one JSON object
+            for l in &lines {
+                let v: serde_json::Value = match serde_json::from_str(l) { Ok(v) => v, Err(e) => { println!("  line is not JSON ({}): {}", e, l); return false; } };
+                if v.get("connector").and_then(|x| x.as_str()) != Some(*conn) || v.get("error").and_then(|x| x.as_str()) != Some(*err) { println!("  entry does not name sink / error exactly: {}", l); return false; }
+                if v.get("event").and_then(|e| e.get("event_type")).and_then(|x| x.as_str()) != Some("Ev\u{e9}nt") { println!("  entry does not carry the event: {}", l); return false; }
+                parsed += 1;
+            }
+            parsed == expected
+        });
+        if !good { ok = false; shown += 1; if shown >= 3 { let _ = std::fs::remove_dir_all(&dir); return false; } }
+    } } }
+    let _ = std::fs::remove_dir_all(&dir);
+    ok
+});
+vpv_replay_table!(c45_opens_after_exactly_threshold, c45_new, c45_allow_request, c45_record_success, c45_record_failure, c45_single_probe, c45_dlq_entries_readable);
